@@ -326,3 +326,70 @@ def coords_ok(n_vars: int, with_attr: bool, names: list[str]) -> bool:
     # the group's own attrs are not consumed by the conversion (a second conversion sees the same tree)
     ok = ok & (("coordinates" in g.attrs) == with_attr)
     return ok
+
+
+# ------------------------------------------------------------------------------------------------ adapter declaration (C02 / C12)
+
+
+def adapter_ok(lines: int, pixels: int, token: int) -> bool:
+    """
+    pre: lines >= 1 and pixels >= 1
+    post: _
+    """
+    from xarray.core import indexing as real_indexing
+
+    class Lock:
+        def __init__(self):
+            self.events = []
+
+        def __enter__(self):
+            self.events.append("acquire")
+
+        def __exit__(self, *a):
+            self.events.append("release")
+            return False
+
+    class Arr:
+        shape = (lines, pixels)
+        dtype = "uint16"
+
+        def __init__(self, lock):
+            self.lock, self.keys = lock, []
+
+        def __getitem__(self, key):
+            self.keys.append((key, list(self.lock.events)))
+            return ("loaded", key)
+
+    calls = []
+
+    class Idx:
+        IndexingSupport = real_indexing.IndexingSupport
+        ExplicitIndexer = real_indexing.ExplicitIndexer
+
+        @staticmethod
+        def explicit_indexing_adapter(key, shape, support, raw):
+            calls.append((key, shape, support))
+            return raw(("basic", key))
+
+    saved = X.indexing
+    X.indexing = Idx
+    try:
+        lock = Lock()
+        arr = Arr(lock)
+        w = X.LazilyIndexedWrapper(arr, lock)
+        out = w[token]
+    finally:
+        X.indexing = saved
+    ok = (len(calls) == 1) & (calls[0][0] == token) & (tuple(calls[0][1]) == (lines, pixels)) & (calls[0][2] is real_indexing.IndexingSupport.BASIC)
+    ok = ok & (out == ("loaded", ("basic", token))) & (len(arr.keys) == 1) & (arr.keys[0][1] == ["acquire"]) & (lock.events == ["acquire", "release"])
+    return ok
+
+
+api_gate_adapter_ok = True  # BASIC support is what the C02 proof assumes, not what the property demands
+
+
+def api_replay_adapter_ok(lines, pixels, token):
+    from vlib import api
+
+    runs = [api.indexing_kinds(level, rpc=rpc) for level in ("1.5", "1.1") for rpc in (2, 7)]
+    return {"reproduced": any(r["reproduced"] for r in runs), "runs": [r for r in runs if r["reproduced"]][:2]}
